@@ -330,6 +330,33 @@ class C16(Check):
                         for raise_ in (False, True):
                             mal = (1, "ValueError") if raise_ else (0, v)
                             yield self.mk(fam, fn, raise_, v, base, ref1=mal, tag="unicode-digits")
+        # after the slash: things that look like another notation (dotted netmasks, hex, octal-looking, floats, a
+        # second slash or address, signs, blanks ...) after IPv4, IPv6 and mapped addresses; the model decides which
+        # of them are CIDR (only all-ASCII-digit masks in range, leading zeros allowed) - everything else is malformed
+        suffixes = ["255.255.255.0", "255.0.255.0", "0.0.0.255", "255.255.255.255", "0.0.0.0", "255.255.255", "0x18", "0X18",
+                    "18h", "0b11000", "0o30", "24.0", "24.", ".24", "2.4e1", "24/24", "/24", "24/", "24 ", " 24", "\t24",
+                    "24\n", "+24", "-24", "-0", "24,16", "192.168.77.255", "ffff:ff00::", "twenty-four", "24%", "*",
+                    "024", "0024", "000", "032", "033", "0128", "0129", "00000000000000000000000000000000000000024"]
+        for fam, bases in (("v4", ["192.168.77.1", "010.1.2.3"]), ("v6", ["2001:db8::1", "::ffff:1.2.3.4"]),
+                           ("ip", ["192.168.77.1", "2001:db8::1", "::ffff:1.2.3.4"])):
+            for base in bases:
+                for suf in (suffixes if not q else suffixes[::2] + suffixes[-8:]):
+                    for fn in FNS[fam]:
+                        yield self.mk(fam, fn, rng.random() < 0.3, base + "/" + suf, base + "/24", tag="other-notation")
+        # legal inputs at natural limits: many leading zeros (int() stops at 4300 digits), longest forms
+        for nz in (254, 255, 256, 1000, 4096):
+            z = "0" * nz
+            for fn in FNS["v4"]:
+                yield self.mk("v4", fn, False, f"{z}1.{z}2.{z}3.{z}4/{z}8", "1.2.3.4/8", tag="limits")
+            for fn in FNS["v6"]:
+                yield self.mk("v6", fn, False, f"2001:db8::1/{z}64", "2001:db8::1/64", tag="limits")
+                yield self.mk("ip", fn, False, f"2001:db8::1/{z}64", f"{z}1.2.3.4/{z}8", tag="limits")
+        for st in ("ffff:ffff:ffff:ffff:ffff:ffff:255.255.255.255/128", "FFFF:FFFF:FFFF:FFFF:FFFF:FFFF:FFFF:FFFF/128",
+                   "0000:0000:0000:0000:0000:ffff:192.168.77.129", "0000:0000:0000:0000:0000:FFFF:C0A8:4D81/128",
+                   "255.255.255.255/32", "000.000.000.000/00"):
+            for fam in ("v6", "ip", "v4"):
+                for fn in FNS[fam]:
+                    yield self.mk(fam, fn, False, st, st.lower(), tag="limits")
         # histories: the SAME string through every function, repeatedly and in several orders, within one
         # process (the transforms are pure: module-level state such as a parse cache must not show)
         hist_strings = {"v4": ["192.168.77.129/20", "10.1.2.3/9", "010.001.002.003/09", "172.16.5.6", "1.2.3.4/33"],
